@@ -126,7 +126,7 @@ def run(ctx):
     costs = {}
     growth_failed = False
     creqs = []
-    for what in ("desc", "anc", "select"):
+    for what in ("desc", "anc", "select", "conflicts"):
         for shape, depth in (("ladder", D0), ("ladder", D0 + 4), ("chain", D0 + 4)):
             creqs.append({"op": "graph.cost", "shape": shape, "depth": depth, "what": what, "reps": 3})
     cres = ctx.impl(creqs, timeout=600)
@@ -136,7 +136,7 @@ def run(ctx):
             return
         costs[(rq["what"], rq["shape"], rq["depth"])] = rs
     table = {}
-    for what in ("desc", "anc", "select"):
+    for what in ("desc", "anc", "select", "conflicts"):
         l0, l1, c1 = (costs[(what, "ladder", D0)], costs[(what, "ladder", D0 + 4)], costs[(what, "chain", D0 + 4)])
         growth = l1["mallocs"] / max(l0["mallocs"], 1)
         ratio = l1["mallocs"] / max(c1["mallocs"], 1)
@@ -145,7 +145,7 @@ def run(ctx):
                        "ns_ladder_d": l0["ns"], "ns_ladder_d+4": l1["ns"], "ns_chain": c1["ns"]}
         if growth >= GROWTH_MAX or ratio >= LADDER_CHAIN_MAX:
             growth_failed = True
-            fn = {"desc": "GetDescendants", "anc": "GetAncestors", "select": "SelectTargetsForBuild"}[what]
+            fn = {"desc": "GetDescendants", "anc": "GetAncestors", "select": "SelectTargetsForBuild", "conflicts": "analysis.BuildGraph (output-conflict detection)"}[what]
             ctx.violation(f"{fn}: cost on the width-2 ladder grows with the number of paths (x{growth:.1f} for 4 more levels; "
                           f"{ratio:.0f}x a chain with the same node count)",
                           {"kind": "oracle", "oracle": "allocation growth ladder(d+4)/ladder(d) < 4 and ladder/chain < 20",
@@ -158,7 +158,7 @@ def run(ctx):
     if not growth_failed:
         # big ladder in process, one request per process with a time limit
         big = {}
-        for what in ("desc", "anc", "select"):
+        for what in ("desc", "anc", "select", "conflicts"):
             rq = {"op": "graph.cost", "shape": "ladder", "depth": BIG_DEPTH, "what": what, "reps": 1}
             try:
                 rs = ctx.impl([rq], timeout=20)[0]
@@ -169,7 +169,7 @@ def run(ctx):
                 ctx.violation(f"{what} on a {BIG_DEPTH}-level ladder did not finish within 20 s", {"kind": "oracle", "oracle": "absolute bound", "request": rq, "impl": rs},
                               signature="path-enumeration:" + what)
         cov["big_ladder_ns"] = big
-        cov["evaluations"] += 3
+        cov["evaluations"] += 4
         cli_ladder(ctx)
 
     cov["disagreements"] = len(bad_corr)
@@ -196,7 +196,7 @@ def cli_ladder(ctx):
         ctx.coverage["evaluations"] += 1
         if rc == 124:
             ctx.violation(f"`grog {' '.join(args)}` on a {n}-target ladder did not finish within {CLI_BOUND:.0f} s",
-                          {"kind": "oracle", "oracle": "absolute bound (CLI)", "cli": args, "ladder_depth": depth}, signature="path-enumeration:cli:" + name)
+                          {"kind": "oracle", "oracle": "absolute bound (CLI)", "cli": args, "ladder_depth": depth}, signature="cli-bound-exceeded:" + name)
             return None
         if expect_rc0 and rc != 0:
             ctx.violation(f"`grog {' '.join(args)}` failed on the ladder workspace", {"kind": "correspondence", "correspondence": "CLI ladder workspace",
@@ -240,6 +240,14 @@ def cli_ladder(ctx):
     r = step("build-failing-bottom", ws2, ["build", "//..."], G.grog_env(scratch2), expect_rc0=False)
     if r and r[0] == 0:
         ctx.violation("build with a failing bottom target exited 0", {"kind": "oracle", "oracle": "failing build exits non-zero"}, signature="ladder-fail-rc0")
+    # output-conflict detection: every target declares a directory output shared with the ordered targets of its column
+    scratch3 = ctx.scratch("ladderout")
+    ws3 = os.path.join(scratch3, "ws")
+    G.write_workspace(ws3, nodes, es, outputs={i: [f"dir::out_{i % 2}"] for i in range(n)})
+    r = step("list-with-dir-outputs", ws3, ["list", "//..."], G.grog_env(scratch3))
+    if r and len(r[1]) != n:
+        ctx.violation("list on the ladder with shared directory outputs of ordered targets does not list every target",
+                      {"kind": "oracle", "oracle": "ladder list", "got": len(r[1]), "want": n}, signature="ladder-list-wrong")
     ctx.coverage["cli_ladder_seconds"] = times
 
 
